@@ -108,7 +108,8 @@ def check_one(case):
     kw = inputs()
     snaps = {n: ({c: list(v) for c, v in t.items()} if isinstance(t, dictable) else t) for n, t in kw.items()}
     if data is not None:
-        kw['data'] = dictable({'k': list(data), 'data': ['old:%s' % k for k in data]})
+        dkeys = list(data)[::-1]          # previously computed values arrive in no particular order
+        kw['data'] = dictable({'k': dkeys, 'data': ['old:%s' % k for k in dkeys]})
         er = [k for k in data if data[k] != 'norow']
         if er:
             kw['expiry'] = dictable({'k': er, 'expiry': [{'past': PAST, 'future': FUTURE, 'none': None}[data[k]] for k in er]})
